@@ -211,6 +211,31 @@ def run_main_process(model_spec, opts, inputs):
 INPLACE_OPS = {'rearrange', 'reset_variables', 'graph_ops'}     # mutate by design / observed through registers
 
 
+def warm_up(kind, x, bits):
+    """call a selection (the bits) of documented-pure functions on an argument before the call under
+    test: they may neither change the argument (snapshots) nor leave state behind that changes a
+    later answer (caches, lazily stored values); results and exceptions are ignored"""
+    dm = Model()
+    if kind == 'graph':
+        fs = [lambda: x.top, lambda: x.variables(), lambda: x.instances(), lambda: x.edges(),
+              lambda: x.attributes(), lambda: x.reentrancies(), lambda: repr(x), lambda: x == x,
+              lambda: penman.encode(x), lambda: layout.configure(x),
+              lambda: layout.reconfigure(x, key=dm.canonical_order), lambda: dm.errors(x),
+              lambda: layout.node_contexts(x), lambda: surface.alignments(x),
+              lambda: transform.reify_attributes(x), lambda: x | x]
+    else:
+        fs = [lambda: x.nodes(), lambda: list(x.walk()), lambda: repr(x), lambda: str(x),
+              lambda: penman.format(x), lambda: penman.format(x, indent=None, compact=True),
+              lambda: layout.interpret(x), lambda: x == x,
+              lambda: transform.canonicalize_roles(x, dm), lambda: x.nodes()]
+    for i, f in enumerate(fs):
+        if (bits >> i) & 1:
+            try:
+                f()
+            except Exception:  # noqa: BLE001
+                pass
+
+
 def run_real(op):
     """call the real function; also snapshot every graph/tree argument built from the op before and
     after the call: a documented-pure call that changes an argument yields a result the model
@@ -219,14 +244,20 @@ def run_real(op):
     g = globals()
     orig_graph, orig_tree = g['py_graph'], g['py_tree']
 
+    warm = op.get('warm')
+
     def rec_graph(j):
         x = orig_graph(j)
         made.append(('graph', x, json.dumps(j_graph(x), sort_keys=True)))
+        if warm:
+            warm_up('graph', x, warm)
         return x
 
     def rec_tree(j):
         x = orig_tree(j)
         made.append(('tree', x, json.dumps(j_tree(x), sort_keys=True)))
+        if warm:
+            warm_up('tree', x, warm)
         return x
     g['py_graph'], g['py_tree'] = rec_graph, rec_tree
     try:
@@ -277,6 +308,12 @@ def _run_real(op):
         trees, err = [], None
         try:
             it = penman.PENMANCodec().iterparse(_input(op)) if op.get('via') == 'codec' else penman.iterparse(_input(op))
+            it = iter(it)
+            for _ in range(op.get('consume') or 0):      # next() a few times, then a for-loop over the rest
+                try:
+                    trees.append(j_tree(next(it)))
+                except StopIteration:
+                    break
             for t in it:
                 trees.append(j_tree(t))
         except Exception as e:  # noqa: BLE001
